@@ -60,7 +60,7 @@ def statusOf (mem cur : OSet) : OSet :=
 /-- the bookkeeping of `updateStatus` after its write. -/
 def updPost (mem : OSet) (x : Sys × Except ApiErr OSet) : Sys × Except ApiErr OSet :=
   let (s', r) := x
-  let ev res := SetEvent.statusUpdate mem.name res mem.revision mem.conds mem.controllerOf
+  let ev res := SetEvent.statusUpdate mem.name res mem.revision mem.conds mem.controllerOf mem.remotePhases
   match r with
   | .ok stored => ({ s' with setEvents := s'.setEvents ++ [ev none] }, .ok { mem with rv := stored.rv })
   | .error e => ({ s' with setEvents := s'.setEvents ++ [ev (some e)] }, .error e)
